@@ -363,7 +363,28 @@ def gen_nonunitary(rng):
     return n, out
 
 
+def gen_wide(rng):
+    """registers of 9..12 qubits with most gates on the highest ids (>= 7), few qubits in play so that groups form
+    (Python set iteration of small ints is increasing only below 8)"""
+    table()
+    n = rng.randint(9, 12)
+    hot = rng.sample(range(6, n), min(rng.randint(2, 4), n - 6))
+    if rng.random() < 0.3:
+        hot.append(rng.randrange(0, 6))
+    out = []
+    for _ in range(rng.randint(2, 8)):
+        r = rng.random()
+        if r < 0.06:
+            out.append({"kind": "M", "name": "M", "q": [rng.choice(hot)], "collapse": False})
+            continue
+        ar = min(rng.choices([1, 2, 3], weights=(5, 6, 1))[0], len(hot))
+        out.append(og(rng.choice(BY_ARITY[ar]), *rng.sample(hot, ar)))
+    return n, out
+
+
 def gen_case(rng, i, channels=True):
+    if i % 10 == 6:
+        return gen_wide(rng)
     if channels and i % 20 == 7:
         return gen_nonunitary(rng)
     if i % 10 == 8:
@@ -411,7 +432,6 @@ def observe_fuse(c, k):
     out = []
     for g in fused.queue:
         if isinstance(g, gates.FusedGate) and id(g) not in orig_ids:
-            assert list(g.target_qubits) == sorted(g.qubit_set) == list(g.qubits)
             out.append((True, list(g.target_qubits), [getattr(m, "_vid", 999) for m in g.gates]))
         else:
             out.append((False, [], [getattr(g, "_vid", 999)]))
@@ -420,7 +440,6 @@ def observe_fuse(c, k):
     n = c.nqubits
     sigs = []
     for nd in nodes:
-        assert list(nd.target_qubits) == sorted(nd.qubit_set)
         assert all(0 <= q < n for q in list(nd.left_neighbors) + list(nd.right_neighbors))
         sigs.append((sorted(nd.qubit_set), [getattr(m, "_vid", 999) for m in nd.gates], bool(nd.marked),
                      [pos[id(nd.left_neighbors[q])] if q in nd.left_neighbors else None for q in range(n)],
@@ -565,6 +584,8 @@ def fuse_cases(run, rng, count):
             continue
         kmax = n + (1 if rng.random() < 0.1 else 0)
         k = rng.randint(1, kmax) if rng.random() > 0.02 else 0
+        if n >= 9 and rng.random() < 0.8:
+            k = rng.randint(2, 4)
         cases.append((n, descs, k))
     return cases
 
@@ -594,6 +615,16 @@ def python_side_fuse_checks(c, fused, out, k):
     if fused.measurements is not c.measurements and list(map(id, fused.measurements)) != list(map(id, c.measurements)):
         bad.append("measurement list changed")
     for g in fused.queue:
+        if isinstance(g, gates.FusedGate) and not any(g is h for h in c.queue):   # groups made by this fuse
+            # proved of the model (Props.fuse_width / ProofsFuse.fuse_groups_sorted_range): the qubit list of a
+            # group is strictly increasing, in range, and is the union of its members' qubits; the backend
+            # builds the group's matrix in sorted order and contracts it on target_qubits, so they must agree
+            union = sorted(set().union(*[set(m.qubits) for m in g.gates])) if g.gates else []
+            if not (list(g.target_qubits) == sorted(g.qubit_set) == union == list(g.qubits) == list(g.init_args)):
+                bad.append(f"FusedGate with target_qubits={tuple(g.target_qubits)} qubit_set={sorted(g.qubit_set)} "
+                           f"members' qubits={union}: target_qubits is not the sorted union of the members' qubits")
+            if any(not 0 <= q < c.nqubits for q in g.target_qubits):
+                bad.append("FusedGate qubit out of range")
         if isinstance(g, gates.M) and not any(g is h for h in c.queue):
             bad.append("measurement gate replaced")
         members = g.gates if (isinstance(g, gates.FusedGate) and not any(g is h for h in c.queue)) else [g]
@@ -928,6 +959,7 @@ def main(run):
         run.checker_cmds.append("coqchk -o -silent -Q theories QV QV.C07.Props")
         run.oblige("coqchk re-checks the compiled cone of C07/Props (no axioms)", rc == 0 and "Axioms: <none>" in out, "kernel-recheck")
     return run.finish(level="proof", rule=(
+        "wide registers (9-12 qubits, gates on the highest ids, exact execution included), "
         "random (n<=6, len<=12, arities 1-3, controlled gates, M incl. collapse, CallbackGate), circuits with many "
         "non-unitary items (noise channels, collapsing and plain measurements, callbacks; fuse stream), circuits containing "
         "FusedGate inputs (outputs of a real fuse re-fused with another width; hand-made fused inputs), histories "
